@@ -910,6 +910,10 @@ func (v *vc) staticHeaps(e ast.Expr, scope map[string]types.Type, pkg *ssa.Packa
 			}
 			return hs
 		}
+		if arr, isArr := p.Elem().Underlying().(*types.Array); isArr && !isStruct(arr.Elem()) {
+			h, _ := v.elemHeap(arr.Elem())
+			return []string{h}
+		}
 		h, _ := v.cellHeap(p.Elem())
 		return []string{h}
 	}
